@@ -50,6 +50,6 @@ class Conjugate: # TODO: Subclass from Sampler once updated
     def _calc_m_for_Gaussians(self, b):
         """ Helper method to calculate m parameter for Gaussian-Gamma conjugate pair. """
         if isinstance(self.target.likelihood.distribution, (Gaussian, GMRF)):
-            return len(b)
+            return getattr(self.target.likelihood.distribution, '_rank', len(b)) # rank of the precision for GMRFs
         elif isinstance(self.target.likelihood.distribution, (RegularizedGaussian, RegularizedGMRF)):
             return np.count_nonzero(b) # See 
